@@ -537,7 +537,9 @@ COMPRESSION = {
 }
 TARGETS = ("path", "pathlib", "file", "sio")
 METAS = ("none", "meta")
-USER_META = {"foo": "bar", "count": 3, "nested": {"k": [1, 2, None], "ü": "€"}, "flag": True}
+# (user keys may start with '$' as well -- '$schema', '$comment' --: only the four names the format defines are reserved)
+USER_META = {"foo": "bar", "count": 3, "nested": {"k": [1, 2, None], "ü": "€"}, "flag": True, "$schema": "urn:x", "$": 0}
+RESERVED_META = ("$generator", "$format_version", "$key_map", "$value_map")
 
 
 def pairwise(factors):
@@ -703,7 +705,7 @@ def check_meta(file_meta: dict, metaname: str) -> list:
         out.append((CL_META, f"file_meta['$generator'] = {g!r}, expected 'nutree/<version>'"))
     if "$format_version" not in file_meta:
         out.append((CL_META, "file_meta has no '$format_version'"))
-    user = {k: v for k, v in file_meta.items() if not str(k).startswith("$")}
+    user = {k: v for k, v in file_meta.items() if k not in RESERVED_META}
     if user != want:
         out.append((CL_META, f"user part of file_meta {clip(user, 150)} != meta passed to save {clip(want, 150)}"))
     return out
@@ -785,6 +787,7 @@ def case_list(tier: str):
     out += [("derived", s) for s in idclone_specs(N - 2)]
     out += [("derivedtyped", s) for s in gen.typed_specs(N - 1)]
     out += [("fs", s) for s in gen.plain_specs(N - 1)]
+    out += [("fs", s) for s in gen.explicit_id_specs(N - 2)] + [("fs", s) for s in idclone_specs(N - 2, ids=("id7", 0))]  # entries keyed by an explicit id (a path, an inode)
     # trees reached by a history (all accessors evaluated, then one change) and larger trees
     hb = N - 2
     out += [("str", s) for s in gen.history_specs(gen.plain_specs(hb))] + [("typed", s) for s in gen.history_specs(gen.typed_specs(hb - 1, min_n=1)) if all(r[3] in ("k1", "k2") for r in s.nodes)]  # (a copy made by the history has the default kind 'child' -- finding F15 --, which the custom kind value lists of this family do not name: such a save is refused by design)
